@@ -786,7 +786,7 @@ f_unique_array (void)
           push_svalue (v->item + i);
           sv = call_function_pointer (funp, 1);
         }
-      else if ((v->item + i)->type == T_OBJECT)
+      else if ((v->item + i)->type == T_OBJECT && !((v->item + i)->u.ob->flags & O_DESTRUCTED))
         {
           sv = apply (func, (v->item + i)->u.ob, 0, ORIGIN_EFUN);
         }
